@@ -441,13 +441,13 @@ def run_concrete(fn, cfg, inputs=None, seed=0, tries=40):
 
 
 def run_obligation(prop, hname, fn, cfg, seed=0, timeout_ms=20000, max_paths=20000, extra_bindings=None,
-                   validate=True):
+                   validate=True, budget_s=1500):
     """explore one (harness, configuration) symbolically; returns a result dict"""
     t0 = time.time()
     key = cfg_key(cfg)
     res = {"property": prop, "harness": hname, "cfg": key, "status": "proved", "labels": {}, "paths": 0,
            "notes": [], "validation": None}
-    E = Engine(timeout_ms=timeout_ms, max_paths=max_paths, seed=seed)
+    E = Engine(timeout_ms=timeout_ms, max_paths=max_paths, seed=seed, budget_s=budget_s)
     sym.set_engine(E)
 
     def replayer(inputs):
